@@ -333,7 +333,7 @@ def job(j):
                 if len(rec['dis']) < 20:
                     rec['dis'].append((COMP_CTOR, c[:-1], io, mo))
         return 'ctor', rec
-    rec = core.eval_cases(COMP_HIST, cases, impl_hist)
+    rec = core.eval_cases(COMP_HIST, cases, impl_hist, repeat=60)
     for i, f in enumerate(rec['fail']):
         rec['fail'][i] = (f[0], f[1], dict(f[2], history=repr(CASE_HIST[tuple(f[2]['case'])])))
     return 'history', rec
